@@ -166,7 +166,14 @@ func emitBuiltins(b *strings.Builder, name string, t [][4]string) {
 	b.WriteString("]\n\n")
 }
 
-// sprintfFormats: the string-literal first arguments of fmt.Sprintf calls inside function fn of file that contain needle
+// sprintfFormats: the build-constraint format of function fn of file, as a Sprintf format over %s applied to the tag.
+// Recognised shapes (a translator of straight-line emission code, nothing more):
+//   - a Sprintf/Fprintf/Printf-style call whose format literal contains needle and whose operands are one expression;
+//   - failing that, a run of consecutive emission statements of one block (x.WriteString(e), x.WriteByte('c'),
+//     x.Write([]byte(e)), fmt.Fprintf(x, lit, …), fmt.Fprint(x, e)) where every e is a concatenation of string
+//     literals and of one and the same expression (the tag): the run is re-emitted as one format with %s for the tag.
+//
+// Anything else yields no format, and the theorems over it fail to check.
 func sprintfFormats(file, fn, needle string) []string {
 	f := parse(file)
 	var out []string
@@ -181,14 +188,24 @@ func sprintfFormats(file, fn, needle string) []string {
 				return true
 			}
 			sel, ok := call.Fun.(*ast.SelectorExpr)
-			if !ok || sel.Sel.Name != "Sprintf" {
+			if !ok {
 				return true
 			}
-			if s, ok := strLit(call.Args[0]); ok && strings.Contains(s, needle) {
-				// the arguments must all be the same expression (the tag)
+			at := -1
+			switch sel.Sel.Name {
+			case "Sprintf", "Printf", "Errorf":
+				at = 0
+			case "Fprintf":
+				at = 1
+			}
+			if at < 0 || len(call.Args) <= at+1 {
+				return true
+			}
+			if s, ok := strLit(call.Args[at]); ok && strings.Contains(s, needle) {
+				// the operands must all be the same expression (the tag)
 				same := true
-				for _, a := range call.Args[2:] {
-					if fmt.Sprint(exprString(a)) != fmt.Sprint(exprString(call.Args[1])) {
+				for _, a := range call.Args[at+2:] {
+					if exprString(a) != exprString(call.Args[at+1]) {
 						same = false
 					}
 				}
@@ -198,8 +215,139 @@ func sprintfFormats(file, fn, needle string) []string {
 			}
 			return true
 		})
+		if len(out) > 0 {
+			continue
+		}
+		ast.Inspect(fd.Body, func(n ast.Node) bool {
+			blk, ok := n.(*ast.BlockStmt)
+			if !ok {
+				return true
+			}
+			run, operand, valid := "", "", true
+			flush := func() {
+				if valid && strings.Contains(run, needle) {
+					out = append(out, run)
+				}
+				run, operand, valid = "", "", true
+			}
+			target := ""
+			for _, st := range blk.List {
+				piece, to, ok := emission(st, &operand)
+				if !ok || (run != "" && to != target) {
+					flush()
+				}
+				if !ok {
+					continue
+				}
+				target = to
+				run += piece
+			}
+			flush()
+			return true
+		})
 	}
 	return out
+}
+
+// emission: the format one emission statement contributes; *operand is the one non-literal expression seen so far
+func emission(st ast.Stmt, operand *string) (piece string, target string, ok bool) {
+	es, ok := st.(*ast.ExprStmt)
+	if !ok {
+		return "", "", false
+	}
+	call, ok := es.X.(*ast.CallExpr)
+	if !ok {
+		return "", "", false
+	}
+	sel, ok := call.Fun.(*ast.SelectorExpr)
+	if !ok {
+		return "", "", false
+	}
+	target = exprString(sel.X)
+	if (sel.Sel.Name == "Fprint" || sel.Sel.Name == "Fprintf") && len(call.Args) >= 1 {
+		target = exprString(call.Args[0])
+		if u, ok := call.Args[0].(*ast.UnaryExpr); ok && u.Op == token.AND {
+			target = exprString(u.X)
+		}
+	}
+	piece, ok = emissionPiece(sel, call, operand)
+	return piece, target, ok
+}
+
+func emissionPiece(sel *ast.SelectorExpr, call *ast.CallExpr, operand *string) (string, bool) {
+	switch {
+	case sel.Sel.Name == "WriteString" && len(call.Args) == 1:
+		return concatFormat(call.Args[0], operand)
+	case sel.Sel.Name == "WriteByte" && len(call.Args) == 1:
+		if bl, ok := call.Args[0].(*ast.BasicLit); ok && bl.Kind == token.CHAR {
+			if r, _, _, err := strconv.UnquoteChar(bl.Value[1:len(bl.Value)-1], '\''); err == nil && r != '%' {
+				return string(r), true
+			}
+		}
+	case sel.Sel.Name == "Write" && len(call.Args) == 1:
+		if conv, ok := call.Args[0].(*ast.CallExpr); ok && len(conv.Args) == 1 {
+			if at, ok := conv.Fun.(*ast.ArrayType); ok && at.Len == nil && exprString(at.Elt) == "byte" {
+				return concatFormat(conv.Args[0], operand)
+			}
+		}
+	case sel.Sel.Name == "Fprint" && len(call.Args) == 2:
+		return concatFormat(call.Args[1], operand)
+	case sel.Sel.Name == "Fprintf" && len(call.Args) >= 2:
+		return concatFormat(&ast.CallExpr{Fun: &ast.SelectorExpr{X: ast.NewIdent("fmt"), Sel: ast.NewIdent("Sprintf")}, Args: call.Args[1:]}, operand)
+	}
+	return "", false
+}
+
+// concatFormat: e as a format: literals (without '%'), '+', Sprintf(lit, same operand…), and the operand itself as %s
+func concatFormat(e ast.Expr, operand *string) (string, bool) {
+	switch e := e.(type) {
+	case *ast.ParenExpr:
+		return concatFormat(e.X, operand)
+	case *ast.BasicLit:
+		if s, ok := strLit(e); ok && !strings.Contains(s, "%") {
+			return s, true
+		}
+		return "", false
+	case *ast.BinaryExpr:
+		if e.Op != token.ADD {
+			return "", false
+		}
+		l, ok1 := concatFormat(e.X, operand)
+		r, ok2 := concatFormat(e.Y, operand)
+		return l + r, ok1 && ok2
+	case *ast.CallExpr:
+		if sel, ok := e.Fun.(*ast.SelectorExpr); ok && sel.Sel.Name == "Sprintf" && len(e.Args) >= 1 {
+			if s, ok := strLit(e.Args[0]); ok {
+				for _, a := range e.Args[1:] {
+					if _, ok := a.(*ast.Ident); !ok {
+						if _, ok := a.(*ast.SelectorExpr); !ok {
+							return "", false
+						}
+					}
+					if *operand == "" {
+						*operand = exprString(a)
+					}
+					if exprString(a) != *operand {
+						return "", false
+					}
+				}
+				if strings.Count(s, "%") != strings.Count(s, "%s") || strings.Count(s, "%s") != len(e.Args)-1 {
+					return "", false
+				}
+				return s, true
+			}
+		}
+		return "", false
+	case *ast.Ident, *ast.SelectorExpr:
+		if *operand == "" {
+			*operand = exprString(e)
+		}
+		if exprString(e) != *operand {
+			return "", false
+		}
+		return "%s", true
+	}
+	return "", false
 }
 
 func exprString(e ast.Expr) string {
